@@ -61,3 +61,32 @@ func VerifCrashFlush() {
 		symapi.Reach("crashed")
 	}
 }
+
+// VerifEmulationPrevention: removal of emulation_prevention_three_byte (00 00 03 -> 00 00)
+// equals the reference for every byte string.
+func VerifEmulationPrevention() {
+	N := symapi.Param("N", 6)
+	n := symapi.IntRange("n", 0, N)
+	in := symapi.Bytes("b", n)
+	// keep away from the NAL separator handling (leading start codes), checked elsewhere
+	if n > 0 {
+		symapi.Assume(in[0] != 0)
+	}
+	orig := append([]byte(nil), in...)
+	got := RemoveH264or5EmulationBytes(in)
+	var want []byte
+	for i := 0; i < len(orig); {
+		if i+2 < len(orig) && orig[i] == 0 && orig[i+1] == 0 && orig[i+2] == 3 {
+			want = append(want, 0, 0)
+			i += 3
+		} else {
+			want = append(want, orig[i])
+			i++
+		}
+	}
+	symapi.Assert(len(got) == len(want), "epb-length")
+	for i := 0; i < len(want) && i < len(got); i++ {
+		symapi.Assert(got[i] == want[i], "epb-bytes")
+	}
+	symapi.Reach("end")
+}
